@@ -184,7 +184,13 @@ pub enum Line {
     Once,
     Warning,
     Text(Vec<Tok>),
+    /// a directive line that is rejected (request `X kind`): `P` = `#pragma foo`, `P0` = `#pragma`, `C` = `#foo`,
+    /// `I0` = `#include`, `I1` = `#include foo`, `I2` = `#include "f1" x`
+    Bad(&'static str),
 }
+
+const BAD_KINDS: &[(&str, &str)] =
+    &[("P", "pragma foo"), ("P0", "pragma"), ("C", "foo"), ("I0", "include"), ("I1", "include foo"), ("I2", "include \"f1\" x")];
 
 #[derive(Clone, Debug)]
 pub struct File {
@@ -232,6 +238,7 @@ fn enc_line(l: &Line) -> String {
         Line::Include(n) => format!("I {}", n),
         Line::Once => "O".into(),
         Line::Warning => "W".into(),
+        Line::Bad(k) => format!("X {}", k),
         Line::Text(t) => format!("T {}", enc_toks(t)),
     }
 }
@@ -248,6 +255,7 @@ fn parse_line(s: &str) -> Option<Line> {
         "I" => Line::Include(rest.to_string()),
         "O" => Line::Once,
         "W" => Line::Warning,
+        "X" => Line::Bad(BAD_KINDS.iter().find(|(k, _)| *k == rest)?.0),
         "T" => Line::Text(parse_toks(rest)?),
         _ => return None,
     })
@@ -373,6 +381,10 @@ impl Program {
                 Line::Once => {
                     s.push_str(hash);
                     s.push_str("pragma once")
+                }
+                Line::Bad(k) => {
+                    s.push_str(hash);
+                    s.push_str(BAD_KINDS.iter().find(|(x, _)| x == k).unwrap().1);
                 }
                 Line::Warning => {
                     s.push_str(hash);
@@ -1303,6 +1315,11 @@ fn ref_file(r: &mut Reference, st: &mut RefRun, idx: usize, depth: usize) -> Res
                 r.undef(t)?;
             }
             Line::Warning => ref_flush(r, st)?,
+            Line::Bad(_) => {
+                // the text in front of the directive is expanded first (its error wins), then the line is rejected
+                ref_flush(r, st)?;
+                return Err(RefErr::BadDefine);
+            }
             Line::Once => {
                 ref_flush(r, st)?;
                 // a file is identified by what the include handler says it really is
@@ -2402,6 +2419,50 @@ fn respell(rng: &mut Rng, hist: &mut Hist, p: &Program) -> Program {
         out
     }
     let mut q = p.clone();
+    // names of the macros the files define (first identifier of a define line)
+    let macro_names: Vec<String> = p
+        .files
+        .iter()
+        .flat_map(|f| f.lines.iter())
+        .filter_map(|l| match l {
+            Line::Define(t) => t.iter().find_map(|t| if let Tok::Id(s) = t { Some(s.clone()) } else { None }),
+            _ => None,
+        })
+        .collect();
+    for f in q.files.iter_mut() {
+        for l in f.lines.iter_mut() {
+            match l {
+                // a text line that begins with white space (the line state machine stays at `StartOfLine`)
+                Line::Text(t) if !t.is_empty() && rng.chance(1, 6) => {
+                    t.insert(0, if rng.chance(1, 2) { Tok::Ws } else { Tok::Cmt(2) });
+                    hist.add("spelling:text-line-indented");
+                }
+                // a parameter that bears the name of a macro of the program (its own macro included): inside the
+                // replacement list the name is the parameter
+                Line::Define(t) if !p.strict && !macro_names.is_empty() && rng.chance(1, 8) => {
+                    let close = t.iter().position(|x| *x == Tok::RParen);
+                    let first_id = t.iter().position(|x| matches!(x, Tok::Id(_)));
+                    if let (Some(close), Some(fi)) = (close, first_id) {
+                        if t.get(fi + 1) == Some(&Tok::LParen) {
+                            let params: Vec<String> =
+                                t[fi + 2..close].iter().filter_map(|x| if let Tok::Id(s) = x { Some(s.clone()) } else { None }).collect();
+                            let new = macro_names[rng.below(macro_names.len() as u64) as usize].clone();
+                            if !params.is_empty() && !params.contains(&new) {
+                                let old = params[rng.below(params.len() as u64) as usize].clone();
+                                for x in t.iter_mut().skip(fi + 1) {
+                                    if *x == Tok::Id(old.clone()) {
+                                        *x = Tok::Id(new.clone());
+                                    }
+                                }
+                                hist.add("shape:parameter-named-like-a-macro");
+                            }
+                        }
+                    }
+                }
+                _ => {}
+            }
+        }
+    }
     for f in q.files.iter_mut() {
         for (bit, name) in [(1u8, "crlf"), (2, "no-final-line-end"), (4, "blank-after-hash")] {
             if rng.chance(1, 3) {
@@ -3064,6 +3125,20 @@ pub fn run(args: &Args, out: &mut Out) {
             let q = respell(&mut rng, &mut hist, &all[i]);
             all[i] = q;
         }
+    }
+    // a directive that is rejected (unknown pragma / command, malformed include), anywhere in any file
+    for _ in 0..(n / 50).max(10) {
+        let i = rng.below(all.len() as u64) as usize;
+        let mut q = all[i].clone();
+        if q.strict {
+            continue;
+        }
+        let fi = rng.below(q.files.len() as u64) as usize;
+        let at = rng.below(q.files[fi].lines.len() as u64 + 1) as usize;
+        let k = BAD_KINDS[rng.below(BAD_KINDS.len() as u64) as usize].0;
+        q.files[fi].lines.insert(at, Line::Bad(k));
+        hist.add(&format!("directive-rejected:{}", k));
+        all.push(q);
     }
     // an API define whose value holds a line end is rejected (fix 3c81ed5), whatever else the program holds
     for _ in 0..(n / 100).max(10) {
